@@ -650,6 +650,8 @@ class Engine:
     def verify_function(self, qualname: str, contract: Optional[Contract] = None) -> FunctionResult:
         contract = contract or self.reg.contracts[qualname]
         finfo = self.repo.functions.get(contract.qualname)
+        if finfo is None and "@" in contract.qualname and getattr(contract.impl, "body_slice", None):
+            finfo = self.sliced_function(contract.qualname, contract.impl.body_slice)
         if finfo is None:
             finfo = self.nested_function(contract.qualname)
         res = FunctionResult(contract.qualname)
@@ -667,6 +669,38 @@ class Engine:
                 res.instances += 1
                 self._verify_instance(finfo, contract, cls, inst, res)
         return res
+
+    def sliced_function(self, qualname: str, spec: dict) -> Optional[FuncInfo]:
+        """A contiguous statement block of a repository function, cut out mechanically by AST position and verified as a
+        function of the variables it reads: the top-level statements after the assignment to the local name
+        spec['after_assign'] up to (excluding) the assignment to the attribute spec['until_assign_attr'].
+        Parameters: self (for methods) and spec['params'].  What the slice drops is everything outside the block."""
+        base = qualname.split("@")[0]
+        outer = self.repo.functions.get(base)
+        if outer is None:
+            return None
+        body = outer.node.body
+        start = end = None
+        for k, st in enumerate(body):
+            tgts = st.targets if isinstance(st, ast.Assign) else [st.target] if isinstance(st, ast.AnnAssign) else []
+            for t in tgts:
+                if isinstance(t, ast.Name) and t.id == spec["after_assign"] and start is None:
+                    start = k + 1
+                if isinstance(t, ast.Attribute) and t.attr == spec["until_assign_attr"] and start is not None and end is None:
+                    end = k
+        if start is None or end is None or end <= start:
+            return None
+        names = ([outer.params[0]] if outer.cls is not None else []) + list(spec.get("params", []))
+        node = ast.FunctionDef(name=outer.name, args=ast.arguments(posonlyargs=[], args=[ast.arg(arg=n, annotation=None)
+                                                                                      for n in names],
+                                                                     vararg=None, kwonlyargs=[], kw_defaults=[], kwarg=None,
+                                                                     defaults=[]),
+                               body=body[start:end], decorator_list=[], returns=None, lineno=body[start].lineno,
+                               col_offset=0)
+        fi = FuncInfo(qualname, node, outer.module, outer.cls)
+        fi.name = outer.name
+        fi.slice_of = (base, body[start].lineno, body[end - 1].end_lineno)
+        return fi
 
     def nested_function(self, qualname: str) -> Optional[FuncInfo]:
         """A `def` nested directly in a repository function, addressed as <outer qualname>.<name>.  It is verified as a
@@ -1148,7 +1182,13 @@ class Engine:
         if isinstance(target, ast.Name):
             env.vars[target.id] = v
         elif isinstance(target, (ast.Tuple, ast.List)):
-            items = self.iter_concrete(ctx, v)
+            if isinstance(v, SymSeq):
+                n = len(target.elts)
+                if not ctx.decide(v.length == n):
+                    raise PyRaise(ExcVal(V.ExtClass("ValueError")))  # too many / not enough values to unpack
+                items = [v.at(ctx, z3.IntVal(k)) for k in range(n)]
+            else:
+                items = self.iter_concrete(ctx, v)
             if len(items) != len(target.elts):
                 raise PyRaise(ExcVal(V.ExtClass("ValueError")))
             for t, x in zip(target.elts, items):
@@ -1203,7 +1243,8 @@ class Engine:
         imp = module.imports.get(name)
         if imp is not None and imp[0] == "from" and imp[1] in self.repo.modules and name not in module.assigns:
             src = self.repo.modules[imp[1]]
-            if imp[2] in src.assigns:  # a module-level value (not a class / function) imported from a repository module
+            if imp[2] in src.assigns or (imp[2] in src.imports and src is not module):
+                # a module-level value (not a class / function) imported from a repository module (possibly re-exported)
                 return self.global_name(ctx, src, imp[2])
         if name in module.assigns:
             key = (module.name, name)
